@@ -24,7 +24,7 @@ RULE = ('(a) seeded coherent models (vlib.cohgen: resolvable types, classes/temp
 ASSUMPTIONS = ['"any conforming library" is approximated by two generated variants',
                'the module template is a user input owned by the harness (cxx/pyb/module.tpl) with stubs for RedirectCout / serialize / BOOST_CLASS_EXPORT',
                'Eigen is not installed: Eigen-typed interfaces are not part of the compiled workload',
-               'flagged constructs (D6 reopened namespaces, D7 namespaced variable initialisers, D8, D23, D34, D36) are excluded while open']
+               'flagged constructs (D8 comment glued to a default, D36 non-const print, D43, D44) are excluded while open']
 MIN_EVENTS = {'quick': {'units_compiled': 100, 'text_units_scanned': 200},
               'thorough': {'units_compiled': 2500, 'text_units_scanned': 4000}}
 
